@@ -109,6 +109,7 @@ type Case struct {
 	Fam     string `json:"fam"`
 	Cfg     Cfg    `json:"cfg"`
 	Ops     []Op   `json:"ops"`
+	Reqs    []Op   `json:"reqs"` // requests executed after the ops (TLC prints them as a set)
 	Battery string `json:"battery"` // last | every | none
 	Base    bool   `json:"base"`    // battery "last": also take a silent baseline before a final Handle (C17)
 	Mirror  bool   `json:"mirror"`  // C19: run the desugared program on a second instance
